@@ -17,7 +17,7 @@ import TracklibVerif.Drv.Util
         B:<name>  |  B:<name>:<grid>                            addAFMap(name[, grid]); name `v#co_sum`, `_` = the empty name; grid `~` = []
         A:<aforder>:<tracks>                                     addCollectionToRaster; aforder = iteration order of the set of features
         C                                                        computeAggregates
-        D:<value>                                                setNoDataValue
+        D:<value>                                                setNoDataValue (`None` allowed, as for <nodata> and the entries of a grid)
       tracks = track|track…, track = uid@xs@ys@name=vals&name=vals (`_` for none); operators are the six co_* names or
       a name starting with `undefined`
       a call other than N / S without a current raster is answered `noraster!none`
@@ -102,17 +102,23 @@ def showErr : Option Err → String
   | some .name => "name" | some .wrongArg => "WrongArgumentError" | some .afError => "AnalyticalFeatureError"
   | some .order => "order"
 
+/-- a scalar or Python's `None` -/
+def rdO (rd : String → Option α) (w : String) : Option (Option α) := if w == "None" then some none else (rd w).map some
+def shO (sh : α → String) : Option α → String
+  | none => "None"
+  | some a => sh a
+
 def showCells (sh : α → String) (c : Cells (Option α)) : String :=
   joinWith ";" (c.map (fun row => joinWith "|" (row.map (fun cell => showList (fun v => match v with | none => "nan" | some a => sh a) cell))))
 
 def showState (sh : α → String) (s : RState α) : String :=
   let g := s.g
   let bands := joinWith "&" (s.bands.map (fun b => "#".intercalate b.name ++ "=" ++
-    (match b.grid with | none => "E" | some gr => showListList sh gr)))
+    (match b.grid with | none => "E" | some gr => showListList (shO sh) gr)))
   let vals := match s.values with
     | none => "none"
     | some V => joinWith "&" (V.map (fun (e : String × Cells (Option α)) => e.1 ++ "=" ++ showCells sh e.2))
-  s!"{sh g.xmin}:{sh g.xmax}:{sh g.ymin}:{sh g.ymax}:{g.ncol}:{g.nrow}!{sh s.noData}!{bands}!{vals}"
+  s!"{sh g.xmin}:{sh g.xmax}:{sh g.ymin}:{sh g.ymax}:{g.ncol}:{g.nrow}!{shO sh s.noData}!{bands}!{vals}"
 
 def showObsCells (floor : α → Int) (g : Grid α) (tracks : List (Trk α)) : String :=
   showList (fun p : α × α => showCell (getCell floor g p.1 p.2)) (tracks.flatMap (·.pts))
@@ -126,9 +132,9 @@ def sessionStep (floor ceil : α → Int) (wr : α) (rd : String → Option α) 
     | some st => some (some st, e ++ "!" ++ showState sh st ++ "!" ++ cells)
   match tok.splitOn ":" with
   | ["N", bx0, bx1, by0, by1, rx, ry, mg, nd] =>
-    match [bx0, bx1, by0, by1, rx, ry, mg, nd].mapM rd with
-    | some [bx0, bx1, by0, by1, rx, ry, mg, nd] => reply "ok" (some (initState (mkGrid ceil bx0 bx1 by0 by1 rx ry mg) nd)) "_"
-    | _ => none
+    match [bx0, bx1, by0, by1, rx, ry, mg].mapM rd, rdO rd nd with
+    | some [bx0, bx1, by0, by1, rx, ry, mg], some nd => reply "ok" (some (initState (mkGrid ceil bx0 bx1 by0 by1 rx ry mg) nd)) "_"
+    | _, _ => none
   | ["S", afs, ops, rx, ry, mg, afo, tr] =>
     match rd rx, rd ry, rd mg, trks? rd tr with
     | some rx, some ry, some mg, some T =>
@@ -148,16 +154,16 @@ def sessionStep (floor ceil : α → Int) (wr : α) (rd : String → Option α) 
       let fin (r : RState α × Option Err) (cells : String) : Option (Option (RState α) × String) :=
         if r.2 == some .order then none else reply (showErr r.2) (some r.1) cells
       match tok.splitOn ":" with
-      | ["B", nm] => (name? nm).bind (fun n => fin (step floor wr s (.band n none)) "_")
+      | ["B", nm] => (name? nm).bind (fun n => fin (step floor s (.band n none)) "_")
       | ["B", nm, gr] =>
-        match name? nm, (if gr == "~" then some [] else (gr.splitOn ";").mapM (fun r => (splitTok r ',').mapM rd)) with
+        match name? nm, (if gr == "~" then some [] else (gr.splitOn ";").mapM (fun r => (splitTok r ',').mapM (rdO rd))) with
         | some n, some G =>
           if G.any (fun r => r.length != (G.headD []).length) then none     -- rectangular grids only
-          else fin (step floor wr s (.band n (some G))) "_"
+          else fin (step floor s (.band n (some G))) "_"
         | _, _ => none
-      | ["A", afo, tr] => (trks? rd tr).bind (fun T => fin (step floor wr s (.add (splitTok afo ',') T)) (showObsCells floor s.g T))
-      | ["C"] => fin (step floor wr s .compute) "_"
-      | ["D", v] => (rd v).bind (fun v => fin (step floor wr s (.setNoData v)) "_")
+      | ["A", afo, tr] => (trks? rd tr).bind (fun T => fin (step floor s (.add (splitTok afo ',') T)) (showObsCells floor s.g T))
+      | ["C"] => fin (step floor s .compute) "_"
+      | ["D", v] => (rdO rd v).bind (fun v => fin (step floor s (.setNoData v)) "_")
       | _ => none
 
 def runSession (floor ceil : α → Int) (wr : α) (rd : String → Option α) (sh : α → String) (toks : List String) : String :=
